@@ -189,6 +189,8 @@ axiom ripemdInj: forall a Bytes, b Bytes {ripemd160(a), ripemd160(b)} :: ripemd1
 // 20-byte account, TLDs by the committee (empty owner)
 invariant InvNames [C10] = forall n Bytes {store.opt(nkey(n))} :: store.has(nkey(n)) ==> ns(store, n).Name == n
         && (len(split(n, ".")) > 1 ? len(ns(store, n).Owner) == 20 : len(ns(store, n).Owner) == 0)
+// the supply counter exists from the first deployment on (no method deletes it)
+invariant InvInit [C10] = store.has("\x00")
 // the NEP-11 identity, for every history: totalSupply == number of non-TLD names ever registered == sum of all balances
 invariant InvSupply [C10] = store.has("\x00") ==> tsupply(store) == SumNB(store) && tsupply(store) == CountNT(store)
 
@@ -261,7 +263,6 @@ func saveDomain(ctx, name, email, refresh, retry, expire, ttl, owner)
   ensures notifs == old(notifs)
 
 func Register(name, owner, email, refresh, retry, expire, ttl) (ok)
-  requires store.has("\x00")
   // only syntactically valid names get this far (C18); an invalid one faults, i.e. changes nothing
   ensures [C18] validName(name)
   // a name is unavailable from its registration until its expiration time: nothing changes then
@@ -289,7 +290,6 @@ func Register(name, owner, email, refresh, retry, expire, ttl) (ok)
 // renew extends the expiration of a live name by whole years (1..10, a year = 365 days), never beyond ten years ahead for
 // non-TLD names; nothing but the expiration changes; one Renew notification
 func Renew(name, years) (r)
-  requires [Pre] store.has(nkey(name)) ==> ns(store, name).Name == name
   cover [C10] years == 10 && len(split(name, ".")) == 1
   cover [C10] years == 1 && len(split(name, ".")) == 2 && store.has(nkey(name)) && ns(store, name).Expiration == now + 283824000000
   ensures [C10] 1 <= years && years <= 10
